@@ -18,6 +18,10 @@ CHECKS = {
  "C20": dict(fam="loglim", ref="4.10", note="Trusted: TLC; injected clock via the unexported nowFunc (in-package driver); standard logger captured.", text="TLC checks the code-shaped limiter against the declarative rule (printed iff not (same as last printed and < interval)) as an action property for all message/time sequences in the bound; transition cover + seeded histories run on the real LogLimiter with an injected clock and the captured output is judged by the TLA+ rule; the recorder's one-minute constant is read in-package."),
  "C05": dict(fam="throttle", ref="4.5", note="Trusted: TLC; the injected ratelimit.Clock (ms); K integral so the library's float fill interval cannot move a tick; main.go wiring of the throttle is bound in the files family.", text="TLC checks exhaustively (both library variants, relative time, clock steps around the refill boundary) that the code-shaped Throttle.tla never exceeds the window bound (count - Cap - 2)*K*100 <= span*101, carried as a max-subarray potential in the observer ThrMon; the same observer judges traces of the real ThrottledRecorder driven by a transition cover, seeded schedules and the real MotionProcessor under continuous motion with a scripted clock."),
  "C06": dict(fam="throttle", ref="4.5", note="Trusted: TLC; injected clock; budget bounds lo (exact) / hi (ratelimit v1.0.1 stale-tick accounting) so that either library behaviour is accepted.", text="Same pipeline as C05; observer clauses: pairing towards the base recorder, forwarding unchanged when lo suffices, no forwarding/restart when hi does not, cut files >= minimum length, exactly one event per suppressed start or cut, start failures propagated; real traces additionally validated as behaviours of Throttle.tla."),
+ "C07": dict(fam="detect", ref="4.4", note='Trusted: TLC; in-package driver reading tempThresh/background after each Detect (build tag verif); harness-written telemetry; float deviations named in Detector.tla (+-1 on the mean, weight ties).', text="TLC checks for all 16 mode/gap/count configurations and all frame sequences over a boundary value set (4x3 frames, resets) that the code-shaped Detector.tla reports motion exactly per the declarative rule; TLC -simulate behaviours of the model and seeded boundary-biased streams (3x3..8x6, values at T, T+-1, delta+-1, count-1/count/count+1 pixels) run on the real detector, and TLC evaluates the declarative rule on the logged pixels and validates each Detect as a step of Detector.tla."),
+ "C08": dict(fam="detect", ref="4.4", note='Trusted: TLC; in-package driver reading tempThresh/background after each Detect (build tag verif); harness-written telemetry; float deviations named in Detector.tla (+-1 on the mean, weight ties).', text="Paired streams through two real detectors in lock-step, differing only in border pixels (any values incl. 0/65535, fixed and dynamic threshold) or only below temp-thresh (fixed): TLC checks the pairing precondition on the logged pixels and demands equal results, equal interior background and equal threshold; the design model states the loops' interior bounds (Detector.tla) and is checked for C07/C09/C15."),
+ "C09": dict(fam="detect", ref="4.4", note='Trusted: TLC; in-package driver reading tempThresh/background after each Detect (build tag verif); harness-written telemetry; float deviations named in Detector.tla (+-1 on the mean, weight ties).', text="TLC checks on the design model that no FFC-affected frame nor the frame after one reports motion for every FFC/reset placement; on the real detector the same rule is judged on streams with FFC periods of every length/parity, and paired histories that are identical from the first affected frame of a period (or from a reset, fixed threshold) but arbitrary before must give identical results (targeted across-the-period pairs + random)."),
+ "C15": dict(fam="detect", ref="4.4", note='Trusted: TLC; in-package driver reading tempThresh/background after each Detect (build tag verif); harness-written telemetry; float deviations named in Detector.tla (+-1 on the mean, weight ties).', text="TLC checks on the design model (dynamic threshold, min/max unset or set, mean below/inside/above, preview 0/1, FFC, resets) the background envelope, border replication, re-seed and threshold = clamped mean; the real detector's background and threshold after every frame are judged by the same rules in TLC (+-1 for the float mean) and validated against Detector.tla."),
 }
 NOT_YET = {
 }
@@ -45,7 +49,8 @@ def main():
         hooks=dict(guard="verif", enable="go build -tags verif (drivers are compiled inside a scratch copy of /repo's working tree)",
                    baseline_off_cmd="cd /repo && go build ./... && go test -vet=off -count=1 ./...",
                    source_commits=[], add_only=True),
-        engines=[dict(name="tlc-throttle", path="tools/fam_throttle.py", serves_properties=["C05", "C06"], kind_free_text="TLC around spec/Throttle.tla + ThrMon.tla; driver harness/ext/thrdrv (direct and real-processor modes)"),
+        engines=[dict(name="tlc-detect", path="tools/fam_detect.py", serves_properties=["C07", "C08", "C09", "C15"], kind_free_text="TLC around spec/Detector.tla, DetCheck.tla, DetMon.tla; in-package driver harness/inpkg/motion"),
+                 dict(name="tlc-throttle", path="tools/fam_throttle.py", serves_properties=["C05", "C06"], kind_free_text="TLC around spec/Throttle.tla + ThrMon.tla; driver harness/ext/thrdrv (direct and real-processor modes)"),
                  dict(name="tlc-ring", path="tools/fam_ring.py", serves_properties=["C19"], kind_free_text="TLC around spec/FrameLoop.tla; driver harness/ext/ringdrv"),
                  dict(name="tlc-loglim", path="tools/fam_loglim.py", serves_properties=["C20"], kind_free_text="TLC around spec/LogLimiter.tla; in-package driver harness/inpkg/loglimiter"),
                  dict(name="tlc-proc", path="tools/fam_proc.py", serves_properties=[p for p in CHECKS if CHECKS[p]["fam"]=="proc"],
